@@ -3,6 +3,7 @@
  * ledger of what the caller owns; TLC checks  live = sum of footprints  after every step and 0 at the end.
  * Run on the ASan/UBSan objects: a sanitizer report aborts the history (abort event).  Histories run in forked children. */
 #include "common.h"
+#include <locale.h>
 #include <unistd.h>
 #include <sys/wait.h>
 extern long W_live, W_files;
@@ -98,6 +99,8 @@ int cmd_c04(int argc, char **argv) {
     hid = h; uint64_t seed = rnd64(); fflush(OUT);
     pid_t pid = fork();
     if (pid == 0) {
+      /* every other history runs in a numeric locale that is not "C": code that saves and restores the locale allocates only then */
+      if (h % 2) setlocale(LC_ALL, "C.utf8");
       RNG = seed; stepno = 0; live0 = W_live; memset(objs, 0, sizeof objs);
       fprintf(OUT, "{\"k\":\"reset\",\"hist\":%ld}\n", hid);
       int len = rndint(maxlen / 4 + 1, maxlen);
